@@ -50,7 +50,7 @@ extern int mpt_valsrc_state(MPT_STRUCT(valsrc) *src, const char *data)
 	}
 	src->state = state;
 	curr = 1;
-	while ((state = *(++data))) {
+	while ((state = *data++)) {
 		if (!isspace(state)) {
 			return curr;
 		}
